@@ -32,6 +32,7 @@ type sandbox struct {
 	rootRel string // root relative to top, e.g. "w/a/root"
 	root    string // real path of the root
 	snap    map[string]string
+	outside map[string]bool // real path -> is a directory, of everything outside the root as of the latest snapshot
 	inoFd   int
 	wds     map[int32]string // watch descriptor -> real dir
 	inoOK   bool
@@ -42,7 +43,8 @@ func (s *sandbox) virt(p string) string {
 		return "/"
 	}
 	if strings.HasPrefix(p, s.scope+"/") {
-		return p[len(s.scope):]
+		// (names built from the root's absolute path carry the real root path: shown as the virtual one)
+		return strings.ReplaceAll(p[len(s.scope):], s.root[1:], s.root[len(s.scope)+1:])
 	}
 	return p
 }
@@ -85,6 +87,14 @@ func newSandbox(scope, top, rootRel string, decoy func(dir string)) *sandbox {
 			decoy(d)
 		}
 	}
+	// a foreign tree whose path embeds the root's own absolute path: <top>/mirror/<absolute path of the root>/ —
+	// for names built from the root's path ("../../mirror/<abs root>/victim": the compiled path CONTAINS the root path)
+	m := filepath.Join(top, "mirror", s.root[1:])
+	must(os.MkdirAll(filepath.Join(m, "sub"), 0o755))
+	must(os.WriteFile(filepath.Join(m, "plain.txt"), []byte("OUTSIDE mirror\n"), 0o644))
+	if decoy != nil {
+		decoy(m)
+	}
 	// a sibling that holds nothing but a well-formed decoy (a walk that gets there delivers it)
 	d := filepath.Join(parent, name+"-old")
 	must(os.MkdirAll(d, 0o755))
@@ -103,10 +113,15 @@ func (s *sandbox) underRoot(p string) bool {
 // snapshot of everything outside the root.
 func (s *sandbox) snapshot() map[string]string {
 	m := map[string]string{}
+	real := map[string]bool{}
+	s.outside = real
 	_ = filepath.Walk(s.scope, func(p string, info os.FileInfo, err error) error {
 		if err != nil {
 			m[s.virt(p)] = "error:" + err.Error()
 			return nil
+		}
+		if p != s.root {
+			real[p] = info.IsDir()
 		}
 		if p == s.root {
 			if !info.IsDir() {
